@@ -195,7 +195,7 @@ def rf24_call(d, toks):
         return sb(d.get_auto_ack(int(t[1])))
     if m == "load_ack":
         return sb(d.load_ack(unhex(t[1]), int(t[2])))
-    if m in ("flush_rx", "flush_tx", "start_carrier_wave", "stop_carrier_wave"):
+    if m in ("flush_rx", "flush_tx", "start_carrier_wave", "stop_carrier_wave", "hop_channel"):
         getattr(d, m)()
         return "ok"
     if m == "fifo":
@@ -226,12 +226,18 @@ class Session:
         w.call_budget = simradio.MAX_SPI_PER_CALL
         if toks[0] == "new":
             name, cls, rid = toks[1], toks[2], int(toks[3])
-            if cls != "rf24":
+            if cls == "rf24":
+                klass = RF24
+            elif cls == "ble":
+                import circuitpython_nrf24l01.fake_ble as fb
+                fb.urandom = lambda n: bytes(range(0xA1, 0xA1 + n))
+                klass = fb.FakeBLE
+            else:
                 raise Infra("unknown class " + cls)
-            obj = RF24.__new__(RF24)
+            obj = klass.__new__(klass)
             self.objs[name] = obj
             try:
-                RF24.__init__(obj, SimSpiDev(w, rid), SimPin(), SimPin(w, rid, ce=True))
+                klass.__init__(obj, SimSpiDev(w, rid), SimPin(), SimPin(w, rid, ce=True))
                 res = "ok"
             except SimTimeout:
                 res = "exc=DIVERGE"
@@ -261,6 +267,8 @@ class Session:
 
     def show_obj(self, obj):
         try:
+            if type(obj).__name__ == "FakeBLE":
+                return show_rf24(obj) + f" cf={obj._curr_freq}"
             return show_rf24(obj)
         except AttributeError:
             return "partial-object"
